@@ -408,6 +408,7 @@ func (x *searcher) runBuild(s *State, o buildOpts) *buildResult {
 // cleanOutputs returns the artefacts a from-scratch build of target t produces for sources v.
 func (x *searcher) cleanOutputs(v Vars, t string) map[string]string {
 	v.Fail = [3]bool{}
+	v.Sabotage = false // injected faults are not part of the tree
 	src := v.render()
 	k := hashFiles(src) + "|" + t + fmt.Sprint(v.args())
 	if c, ok := x.clean.Load(k); ok {
@@ -419,7 +420,9 @@ func (x *searcher) cleanOutputs(v Vars, t string) map[string]string {
 		res = build(root, v, buildOpts{Target: t})
 	})
 	if res.LoadErr != nil || res.RunErr != nil {
-		vlib.Fatalf("from-scratch build failed: %v %v", res.LoadErr, res.RunErr)
+		// no reference outputs for this tree (a tree whose clean build fails while an incremental
+		// build of the same target succeeded would be remarkable: report it as a harness error)
+		vlib.Fatalf("from-scratch build of %s failed: %v %v (vars %+v)", t, res.LoadErr, res.RunErr, v)
 	}
 	x.clean.Store(k, res.After)
 	return res.After
